@@ -1,0 +1,94 @@
+//go:build verif
+
+package dhcp
+
+import (
+	"context"
+	"net"
+	"sort"
+	"time"
+
+	"github.com/insomniacslk/dhcp/dhcpv4"
+)
+
+// Verification seams for property C02 (DHCP binding monitor in /verif): exported
+// wrappers around unexported functions and read-only copies of unexported
+// state. No behaviour of their own.
+
+// VerifC02HandleDHCP calls the real slow-path handler (what server4 invokes per packet).
+func (s *Server) VerifC02HandleDHCP(conn net.PacketConn, peer net.Addr, req *dhcpv4.DHCPv4) {
+	s.handleDHCP(conn, peer, req)
+}
+
+// VerifC02CleanupExpired calls the real expiry sweep once (what leaseCleanup does per tick).
+func (s *Server) VerifC02CleanupExpired() { s.cleanupExpiredLeases() }
+
+// VerifC02LeaseCleanup runs the real cleanup loop (what Start launches) until ctx is done.
+func (s *Server) VerifC02LeaseCleanup(ctx context.Context) { s.leaseCleanup(ctx) }
+
+// VerifC02Lease is a copy of one lease-table entry.
+type VerifC02Lease struct {
+	Key       string // map key (MAC string, or hex circuit-id for the index)
+	MAC       string
+	IP        net.IP
+	PoolID    uint32
+	ExpiresAt time.Time
+	CircuitID []byte
+	SessionID string
+}
+
+func verifC02CopyLease(key string, l *Lease) VerifC02Lease {
+	return VerifC02Lease{
+		Key: key, MAC: l.MAC.String(), IP: append(net.IP(nil), l.IP...), PoolID: l.PoolID,
+		ExpiresAt: l.ExpiresAt, CircuitID: append([]byte(nil), l.CircuitID...), SessionID: l.SessionID,
+	}
+}
+
+// VerifC02Leases returns a copy of the lease table (MAC -> lease), sorted by key.
+func (s *Server) VerifC02Leases() []VerifC02Lease {
+	s.leasesMu.RLock()
+	out := make([]VerifC02Lease, 0, len(s.leases))
+	for k, l := range s.leases {
+		out = append(out, verifC02CopyLease(k, l))
+	}
+	s.leasesMu.RUnlock()
+	sort.Slice(out, func(i, j int) bool { return out[i].Key < out[j].Key })
+	return out
+}
+
+// VerifC02CircuitIndex returns a copy of the circuit-id secondary index, sorted by key.
+func (s *Server) VerifC02CircuitIndex() []VerifC02Lease {
+	s.leasesByCircuitIDMu.RLock()
+	out := make([]VerifC02Lease, 0, len(s.leasesByCircuitID))
+	for k, l := range s.leasesByCircuitID {
+		out = append(out, verifC02CopyLease(k, l))
+	}
+	s.leasesByCircuitIDMu.RUnlock()
+	sort.Slice(out, func(i, j int) bool { return out[i].Key < out[j].Key })
+	return out
+}
+
+// VerifC02PoolSnapshot is a copy of a pool's allocation state.
+type VerifC02PoolSnapshot struct {
+	Allocated   map[string]net.IP // MAC -> IP
+	Available   []net.IP          // in list order
+	Unavailable []string          // sorted
+}
+
+// VerifC02Snapshot copies allocated / available / unavailable under the pool's own mutex.
+func (p *Pool) VerifC02Snapshot() VerifC02PoolSnapshot {
+	p.mu.Lock()
+	defer p.mu.Unlock()
+	snap := VerifC02PoolSnapshot{Allocated: make(map[string]net.IP, len(p.allocated))}
+	for m, ip := range p.allocated {
+		snap.Allocated[m] = append(net.IP(nil), ip...)
+	}
+	for _, ip := range p.available {
+		snap.Available = append(snap.Available, append(net.IP(nil), ip...))
+	}
+	for ip := range p.unavailable {
+		snap.Unavailable = append(snap.Unavailable, ip)
+	}
+	sort.Strings(snap.Unavailable)
+	return snap
+}
